@@ -351,7 +351,11 @@ class SyncInterpreter(BaseInterpreter[TContext, TEvent]):
         processed = 0
         limit = getattr(self.machine, "max_iterations", 1000)
         try:
-            while self._event_queue:
+            # 🛑 Like the async run loop, stop consuming once the machine is
+            #    done, failed or stopped: events still queued then (raised by
+            #    the very transition that completed it, or sent before a
+            #    `stop()` issued from an action) were processed anyway.
+            while self._event_queue and self.status == "running":
                 processed += 1
                 if processed > limit:
                     logger.error(
